@@ -205,6 +205,83 @@ def rule_r3(facts, col, bodies=None):
                         "data still pending" % ("write" if w[1] == "W" else "read", w[0], tgt, tgt), {"short": w[0], "waits_on": tgt})
 
 
+def short_window_threshold(fact):
+    """(window, threshold_expr, strict) for facts `len(W) < X` / `X > len(W)` / `len(W) <= X`; None otherwise."""
+    rel = fact[0]
+    if rel in ("Lt", "Le"):
+        w = len_of_window(fact[1])
+        if w and not len_of_window(fact[2]):
+            return w, fact[2], rel == "Lt"
+    if rel in ("Gt", "Ge"):
+        w = len_of_window(fact[2])
+        if w and not len_of_window(fact[1]):
+            return w, fact[1], rel == "Gt"
+    return None
+
+
+def rule_r4(facts, col, bodies=None):
+    """the amount a block says it waits for is the amount its test required"""
+    for body in (bodies if bodies is not None else facts.impl_bodies(BLOCK_TRAIT, "work")):
+        for bb, verdict, e in effects.verdict_defs(body):
+            if verdict != "WaitForStream" or e.k != "agg" or len(e.args) < 2:
+                continue
+            tgt = wait_target(e)
+            fact = nearest_fact(body, bb)
+            if tgt is None or fact is None:
+                continue
+            need = peel(e.args[1], through_try=False)
+            key = "%s:need(%s)@%s" % (body.q, tgt, _guard_desc(body, bb))
+            w = short_window_fact(fact)
+            if w is None or w[0] != tgt:
+                continue
+            thr = short_window_threshold(fact)
+            if thr is None:
+                # emptiness test: any need >= 1 is truthful
+                if need.k == "const" and need.v == 0:
+                    col.bad("C09.R4", key, body.where(bb), "waits for 0 samples on an empty window: the wait is satisfied "
+                            "immediately and the runner spins", {})
+                else:
+                    col.ok("C09.R4", key, body.where(bb), "window empty, waits for >= 1")
+                continue
+            _, x, strict = thr
+            px = peel(x, through_try=False)
+            if same_expr(need, px):
+                col.ok("C09.R4", key, body.where(bb), "waits for exactly the tested threshold")
+            elif need.k == "const" and px.k == "const" and need.v is not None and px.v is not None:
+                if need.v >= px.v + (0 if strict else 1):
+                    col.ok("C09.R4", key, body.where(bb), "constant need %s >= tested threshold %s" % (need.v, px.v))
+                else:
+                    col.bad("C09.R4", key, body.where(bb),
+                            "work() needs %s%s samples on self.%s to proceed but says it waits for only %s: the wait is already "
+                            "satisfied, so the runner calls it again at once, forever (and never learns the stream ended)"
+                            % ("" if strict else "more than ", px.v, tgt, need.v), {})
+            elif _structurally_unrelated(need, px):
+                col.bad("C09.R4", key, body.where(bb),
+                        "work() tests `len(self.%s) < %s` but reports waiting for `%s`, a different quantity: when the stream holds "
+                        "between the two amounts the wait is satisfied yet no progress is possible, so the block is polled "
+                        "forever / never retired" % (tgt, show(px)[:80], show(need)[:80]), {})
+            else:
+                col.silent("C09.R4", key, body.where(bb), "threshold and need not comparable")
+
+
+def _structurally_unrelated(a, b):
+    """Both are fully visible arithmetic over self fields / constants, yet differ."""
+    def visible(e, d=0):
+        e = peel(e, through_try=False)
+        if e is None or d > 12:
+            return False
+        if e.k == "const":
+            return e.v is not None
+        if e.k == "field":
+            return self_field_path(e) is not None
+        if e.k == "bin":
+            return visible(e.a, d + 1) and visible(e.b, d + 1)
+        if e.k == "call" and (e.q in MIN_CALLS or e.q in MAX_CALLS or e.rq in MIN_CALLS or e.rq in MAX_CALLS):
+            return all(visible(x, d + 1) for x in e.args)
+        return False
+    return visible(a) and visible(b)
+
+
 def run(ctx):
     facts = ctx.facts("default")
     for w in WINDOW_TYPES:
@@ -212,6 +289,8 @@ def run(ctx):
     rule_r1(facts, ctx)
     rule_r2(facts, ctx)
     rule_r3(facts, ctx)
+    rule_r4(facts, ctx)
+    ctx.floor("C09.R4", 30, "WaitForStream sites whose controlling test is a plain short-window test on the awaited stream")
     ctx.floor("C09.R1", 200, "ADT fields of the crate")
     ctx.floor("C09.R2", 50, "Again return sites / work bodies (56 work bodies)")
     ctx.floor("C09.R3", 40, "WaitForStream return sites with a plain short-window controlling test")
